@@ -273,7 +273,7 @@ class Folder(object):
                         'isinstance', 'issubclass', 'getattr', 'hasattr',
                         'setattr', 'type', 'super', 'map', 'filter', 'iter',
                         'next', 'print', 'ord', 'chr', 'format', 'hash',
-                        'bytearray', 'delattr') or name in EXC_NAMES:
+                        'bytearray', 'delattr', 'vars') or name in EXC_NAMES:
                 return ExtVal('builtins.' + name)
             raise self.err('unbound name %r' % name, node, m)
         val = self.entity_value(ent, m, name)
@@ -356,6 +356,14 @@ class Folder(object):
         return self.module_global(env.module, name, node)
 
     # -- expressions -----------------------------------------------------
+    def e_Yield(self, n, env):
+        found, out = env.lookup('$yield')
+        if not found:
+            raise self.err('yield outside a folded generator function', n,
+                           env.module)
+        out.append(self.eval(n.value, env) if n.value is not None else None)
+        return None
+
     def e_NamedExpr(self, n, env):
         v = self.eval(n.value, env)
         self.assign(n.target, v, env)
@@ -646,6 +654,22 @@ class Folder(object):
             return ExtInstance('class.__dict__', [cv], {})
         if attr == '__name__':
             return cv.ci.name
+        if attr == '__mro__':
+            # the in-repo linearisation; `object` (no namespace entry a
+            # program of this repo reads) is left out, a base from outside
+            # the repo is not representable
+            from .srcdb import ClassInfo as _CI
+            mro = self.db.mro(cv.ci)
+            for c in mro:
+                for b in c.bases:
+                    if not isinstance(b, _CI) and getattr(
+                            b, 'dotted', None) != 'object':
+                        raise self.err('__mro__ of %s: base %s is not a '
+                                       'class of this repository'
+                                       % (cv.ci.name, getattr(b, 'dotted',
+                                                              b)), node,
+                                       module)
+            return tuple(ClassVal(c) for c in mro)
         if own is not None:
             defs = own.attrs.get(attr)
             ad = defs[-1] if defs else None
@@ -812,6 +836,8 @@ class Folder(object):
                     if len(args) > 2:
                         return args[2]
                     raise
+            if base == 'vars' and len(args) == 1 and not kwargs:
+                return self.getattr(args[0], '__dict__', n, env.module)
             if base == 'hasattr':
                 try:
                     self.getattr(args[0], args[1], n, env.module)
@@ -1180,13 +1206,29 @@ class Folder(object):
         self.depth += 1
         if self.depth > 60:
             raise AnalysisError('fold recursion too deep at %s' % fi.qualname)
+        is_gen = any(isinstance(x, (ast.Yield, ast.YieldFrom))
+                     for st in body for x in ast.walk(st))
+        if is_gen:
+            # a generator function over concrete values: evaluated eagerly,
+            # its elements handed out as a list (the same elements in the
+            # same order; if producing them raises, a lazy consumer might
+            # never have got that far -- not decided)
+            fenv.vars['$yield'] = []
         try:
             self.exec_block(body, fenv, fi)
             res = None
         except _Return as r:
             res = r.value
+        except FoldRaise as e:
+            if is_gen:
+                raise AnalysisError('generator %s raises %s while its '
+                                    'elements are folded' % (
+                                        fi.qualname, e.exc_type))
+            raise
         finally:
             self.depth -= 1
+        if is_gen:
+            return list(fenv.vars['$yield'])
         if memo_key is not None:
             self.memo[memo_key] = res
         return res
